@@ -235,6 +235,7 @@ func c05miss(c *core.Ctx) {
 	c.Floor(R, 5)
 	table := map[string]string{
 		"notations/jschema/checker.CheckRootSchema":                "the key is taken from the sorted key list of the very same map, so the entry exists",
+		"(*notations/jschema.JSchema).CollectUserTypes":            "the key is taken from the sorted list of the very same map's `#` keys (fix b5152aa), so the entry exists; this is not a reference resolution",
 		"notations/jschema/loader.AddUnnamedTypes":                 "both lookups use keys taken from the sorted key lists of the very same maps (the deterministic work list of fix 8863d18), so the entries exist",
 		"(*notations/jschema/checker.recursionChecker).checkType": "missing type is treated as `nothing to check` by the recursion checker: reported as the known finding C06.table (the table passed down lacks the named types)",
 	}
